@@ -223,7 +223,13 @@ func (fr *Frame) callArgs(x *ssa.Call, args []Value) Value {
 	callee := cc.StaticCallee()
 	var binds []Value
 	if callee == nil || len(callee.FreeVars) > 0 {
-		switch fv := fr.get(cc.Value).(type) {
+		fnv := fr.get(cc.Value)
+		if fr.fnOv != nil {
+			fnv, fr.fnOv = fr.fnOv, nil
+		}
+		switch fv := fnv.(type) {
+		case FuncSel:
+			return fr.callFuncSel(x, args, fv)
 		case FuncV:
 			callee = fv.Fn
 		case ClosureV:
@@ -1338,6 +1344,28 @@ func (it *Interp) SliceContent(v Value) ([]*Term, *Term, bool) {
 	return bs, ln, true
 }
 
+// ArrayContent reads the bytes of an array value (a function result of type [N]byte).
+func (it *Interp) ArrayContent(v Value) ([]*Term, bool) {
+	var root *Cell
+	switch x := v.(type) {
+	case Agg:
+		root = x.C
+	case Ptr:
+		root = x.C
+	default:
+		return nil, false
+	}
+	var bs []*Term
+	for _, k := range root.Kids {
+		b, ok := asTerm(it.loadValue(k))
+		if !ok {
+			return nil, false
+		}
+		bs = append(bs, it.ApplyTerm(b))
+	}
+	return bs, true
+}
+
 // ConstBytes builds a byte slice of constants (driver input).
 func (it *Interp) ConstBytes(bs []int64) Value {
 	o := it.NewArrayObject(types.Typ[types.Uint8], len(bs), "const-bytes", true)
@@ -1374,19 +1402,41 @@ func (s PtrSel) mapSel(f func(c *Cell) *Cell) PtrSel {
 }
 
 func (fr *Frame) callSplit(x *ssa.Call, args []Value, idx int, sel PtrSel) Value {
+	return fr.callSplitGen(x, len(sel.Alts), sel, func(i int) Value {
+		a2 := append([]Value{}, args...)
+		a2[idx] = Ptr{sel.Alts[i]}
+		return fr.callArgs(x, a2)
+	})
+}
+
+// FuncSel is a function value selected among alternatives (an entry of a table of functions read at a symbolic
+// index): conditions as in PtrSel.
+type FuncSel struct {
+	Fns []Value
+	Sel PtrSel
+}
+
+// callFuncSel performs a call through a selected function value: once per alternative on the same pre-state, effects
+// merged under the selection conditions.
+func (fr *Frame) callFuncSel(x *ssa.Call, args []Value, fs FuncSel) Value {
+	return fr.callSplitGen(x, len(fs.Fns), fs.Sel, func(i int) Value {
+		fr.fnOv = fs.Fns[i]
+		return fr.callArgs(x, args)
+	})
+}
+
+func (fr *Frame) callSplitGen(x *ssa.Call, nalt int, sel PtrSel, run func(i int) Value) Value {
 	it := fr.it
 	type alt struct {
 		ret    Value
 		writes map[*Cell]cellState
 		trace  []TraceEv
 	}
-	alts := make([]alt, len(sel.Alts))
-	for i, c := range sel.Alts {
-		a2 := append([]Value{}, args...)
-		a2[idx] = Ptr{c}
+	alts := make([]alt, nalt)
+	for i := 0; i < nalt; i++ {
 		mark := len(it.journal)
 		tmark := len(it.Trace)
-		alts[i].ret = fr.callArgs(x, a2)
+		alts[i].ret = run(i)
 		alts[i].writes = it.written(mark)
 		it.undoTo(mark)
 		alts[i].trace = append([]TraceEv{}, it.Trace[tmark:]...)
